@@ -966,6 +966,11 @@ impl<C: CellType> OptRebuild<'_, C> {
         let mut dependents = HashMap::new();
         let mut depends_on = HashMap::new();
         for var in vars {
+            if constant.contains(&var) || depends_on.contains_key(&var) {
+                // The same variable may be listed more than once. Registering
+                // its dependencies again would count them twice.
+                continue;
+            }
             if let Some(write) = sub_state.written.get(&var) {
                 if let OptWrite::Known(written) = write {
                     if self.compare(Expr::var(var), written) {
